@@ -35,8 +35,10 @@ pub fn run(ctx: &mut Ctx) {
         let mut h = Hist::start(ctx, sim, "history");
         // sometimes start near a counter boundary (byte carries, and the last admissible values)
         if ctx.rng.gen_bool(0.35) {
-            let b = [254u32, 255, 65534, 65535, 16777214, u32::MAX - 4000][ctx.rng.gen_range(0..6)];
-            let b2 = [254u32, 255, 65534, 65535, 16777214, u32::MAX - 4000][ctx.rng.gen_range(0..6)];
+            // … and a few steps before exhaustion: the last admissible IVs, then refusal without wrap-around
+            const STARTS: [u32; 8] = [254, 255, 65534, 65535, 16777214, u32::MAX - 4000, u32::MAX - 3, u32::MAX - 1];
+            let b = STARTS[ctx.rng.gen_range(0..STARTS.len())];
+            let b2 = STARTS[ctx.rng.gen_range(0..STARTS.len())];
             // keep both sides of each direction in sync: (dev enc = rdr dec), (rdr enc = dev dec)
             h.set_counters(ctx, b, b2, b2, b);
         }
